@@ -9,3 +9,13 @@ CLAIMS["C03"] = (
     "Residual genuine defects (bulk edits apply partially; add/update_surrogate and make_parameter_dynamic reject after writing) are listed in known_findings.json.",
     "DESIGN.md section 4 C03, Appendix A.1",
 )
+CLAIMS["C02"] = (
+    "structural dominance + path enumeration over the sorter (guard-dominates-emit, exit classification, counter/cap on every iteration path) and symbolic cap-adequacy (sympy polynomial in len(elements))",
+    "Decides the shape of the resolution algorithm for ALL graphs and declaration orders: (R1) a component is emitted only under `required <= available` and then extends `available`; "
+    "(R2) the loop is left only on queue exhaustion or by raising the circular-dependency error; (R3) every iteration path counts against the cap (termination); "
+    "(R4) the cap, as a polynomial in n, dominates the n(n+1)/2 worst case so no resolvable graph is rejected; (R5) the missing-name check with payload sorted(required - providable) dominates the loop; "
+    "(R6) no handler on the query->sorter chains swallows the errors; (R7) all component classes reach the sorter unfiltered and evaluation follows its order. "
+    "Together these are the algorithmic content of the property; numeric equality of evaluated values is not checked.",
+    "Trusts set.issubset/difference and SimpleQueue FIFO semantics; sorter located by role (callee of _create_cache that raises the circular error). Unknown loop/termination shapes give exit 2, not a violation.",
+    "DESIGN.md section 4 C02",
+)
